@@ -96,7 +96,7 @@ theorem World.props3Blocks_fits (w : World R) (pt : P3 R) (depth : R) (ps : List
     simp only [hinit] at h
     split at h
     · simp only [Except.ok.injEq, Prod.mk.injEq] at h; obtain ⟨rfl, _⟩ := h; exact hf
-    · cases hfb : featuresBlocks w.features w.ctx ⟨pt, w.ctx.coord.toNatural pt, depth, w.ctx.gravity⟩ ps bs0 g with
+    · cases hfb : featuresBlocks w.features w.ctx (w.query pt depth) ps bs0 g with
       | error e => simp [hfb] at h
       | ok r =>
         obtain ⟨bs1, g1⟩ := r
